@@ -236,7 +236,7 @@ def _json_extract_value_array_sql(
     if isinstance(expression, exp.JSONValueArray):
         this: exp.Expr = exp.cast(ident, to=exp.DType.VARCHAR)
     else:
-        this = exp.ParseJSON(this=f"TO_JSON({ident})")
+        this = exp.ParseJSON(this=f"TO_JSON({self.sql(ident)})")
 
     transform_lambda = exp.Lambda(expressions=[ident], this=this)
 
